@@ -3,8 +3,10 @@
 # Confirms in the scratch repo worktree /tmp/mut/wt (exclusive target dir /tmp/mut/target_confirm):
 # (a) demo passes without the patch, (b) demo fails with it, (c) the crate's suite passes with it.
 D="$1"; CRATE="$2"; NAME="$3"
-export CARGO_TARGET_DIR=/tmp/mut/target_confirm CARGO_PROFILE_DEV_DEBUG=0 CARGO_PROFILE_TEST_DEBUG=0 CARGO_NET_OFFLINE=true
-W=/tmp/mut/wt_confirm
+LANE="${CONFIRM_LANE:-0}"
+export CARGO_TARGET_DIR=/tmp/mut/target_confirm$LANE CARGO_PROFILE_DEV_DEBUG=0 CARGO_PROFILE_TEST_DEBUG=0 CARGO_NET_OFFLINE=true
+W=/tmp/mut/wt_confirm$LANE
+[ -d $W ] || git -C /repo worktree add -q --detach $W
 git -C $W checkout -q --detach "$(git -C /repo rev-parse HEAD)"; git -C $W checkout -q -- .; git -C $W clean -fdq
 cd $W
 if [ -f "$D/demo.diff" ]; then
@@ -14,12 +16,12 @@ else
   cp "$D/demo.rs" crates/$CRATE/tests/$NAME.rs
   RUN="cargo test --offline -q -p $CRATE --test $NAME"
 fi
-$RUN >/tmp/mut/confirm_clean.log 2>&1; CLEAN=$?
+$RUN >/tmp/mut/confirm_clean$LANE.log 2>&1; CLEAN=$?
 git apply "$D/patch.diff" || { echo "CONFIRM $D: PATCH DOES NOT APPLY"; git -C $W checkout -q -- .; git -C $W clean -fdq; exit 2; }
-$RUN >/tmp/mut/confirm_mut.log 2>&1; MUT=$?
+$RUN >/tmp/mut/confirm_mut$LANE.log 2>&1; MUT=$?
 # suite with the mutation but without the demo
 git -C $W checkout -q -- .; git -C $W clean -fdq; git apply "$D/patch.diff"
-timeout 1200 cargo test --offline -q -p $CRATE --no-fail-fast -- --skip breakpoint_set_while_running_hits_on_subsequent_cycle >/tmp/mut/confirm_suite.log 2>&1; SUITE=$?
-FAILED=$(grep -E "^test .* FAILED$|^    [a-zA-Z_:0-9]+$" /tmp/mut/confirm_suite.log | sort -u | tr -s ' \n' ' ')
+timeout 1200 cargo test --offline -q -p $CRATE --no-fail-fast -- --skip breakpoint_set_while_running_hits_on_subsequent_cycle >/tmp/mut/confirm_suite$LANE.log 2>&1; SUITE=$?
+FAILED=$(grep -E "^test .* FAILED$|^    [a-zA-Z_:0-9]+$" /tmp/mut/confirm_suite$LANE.log | sort -u | tr -s ' \n' ' ')
 git -C $W checkout -q -- .; git -C $W clean -fdq
 echo "CONFIRM $D: demo_on_clean_rc=$CLEAN demo_on_mutant_rc=$MUT suite_on_mutant_rc=$SUITE failed_tests=[$FAILED]"
